@@ -1,5 +1,5 @@
 """C21 — the simulation time grid covers the sequence and every evaluation time (structural clauses)."""
-from ..rules import once, adapter, step
+from ..rules import drivers, once, adapter, step
 
 META = {
     "title": "The simulation time grid covers the sequence and every evaluation time",
@@ -27,3 +27,4 @@ def check(ctx):
     step.step_sv(ctx)
     ctx.floor("GRID", 8)
     once.filter_tolerance(ctx)
+    drivers.evaluation_time_filter(ctx)
